@@ -456,7 +456,7 @@ fn run_case(line: &str) -> Option<String> {
         "threads" => run_threads(&mut ts),
         "hist" => run_hist(&mut ts),
         "json" => extra::run_json(&mut ts),
-        "ser" => extra::run_ser(&mut ts),
+        "ser" | "serx" => extra::run_ser(&mut ts),
         "de" => extra::run_de(&mut ts),
         "conv" => extra::run_conv(&mut ts),
         "fn" => {
